@@ -4,7 +4,7 @@ import json, subprocess, sys, os
 base = json.load(open('/root/.vp/BASELINE.json'))
 stable = set(base['stable_pass'])
 env = dict(os.environ, GOFLAGS='-mod=mod', GOPROXY='off', GOSUMDB='off', GOTOOLCHAIN='local')
-p = subprocess.run(['go', 'test', '-json', '-vet=off', '-count=1', '-timeout', '25m', './...'], cwd='/repo', env=env, capture_output=True, text=True)
+p = subprocess.run(['go', 'test', '-json', '-vet=off', '-count=1', '-p', '1', '-timeout', '25m', './...'], cwd='/repo', env=env, capture_output=True, text=True)
 passed = set()
 for ln in p.stdout.splitlines():
     try:
